@@ -4,7 +4,7 @@ import ast
 from .. import core
 from ..core import (AnalysisError, short, unparse, iter_own, call_name, call_recv, kwarg,
                     is_self_attr, atomic_facts, parents, enclosing_stmt, enclosing_func, const_value)
-from .. import tables
+from .. import tables, symex
 from ..engine import walk_fn
 from . import totality
 
@@ -404,6 +404,44 @@ def run(ctx):
     nm_ = _c09.object_memos(ctx, 'R07j', repo, lambda name: name.startswith('pylatexenc.latex2text'))
     ctx.holds('R07j', m, None, '%d per-object memo store(s) in latex2text examined' % nm_,
               construct='per-object memo scan', trivial=True)
+
+    # ---- R07k: a recursive renderer is called once per node and path
+    ctx.rule('R07k', 'no path of a LatexNodes2Text method renders the same node (list) twice: a second recursive call '
+                     'on the same argument doubles the work at every nesting level (time exponential in the depth)', 8)
+    RENDER = ('nodelist_to_text', 'node_to_text', '_groupnodecontents_to_text', 'node_arg_to_text')
+    n_rk = 0
+    for mn_, mf_ in sorted(meths.items()):
+        calls_ = [c_ for c_ in iter_own(mf_) if isinstance(c_, ast.Call) and call_name(c_) in RENDER and is_self_attr(c_.func)]
+        if not calls_:
+            continue
+        n_rk += 1
+        try:
+            pcs = symex.Walker(want_exits=True, want_returns=True, trace=True,
+                               is_sink=lambda c_: call_name(c_) in RENDER and is_self_attr(c_.func)).run(mf_)
+        except symex.TooManyPaths:
+            ctx.unknown('R07k', m, mf_, 'too many paths', construct=mn_ + ': renders once')
+            continue
+        worst = None
+        for cs in pcs:
+            if cs.kind not in ('return', 'end', 'raise'):
+                continue
+            cnt = {}
+            for node_, sub_ in [t_ for t_ in cs.env.get('#trace', ()) if isinstance(t_[0], ast.Call)]:
+                if getattr(node_, '_parent', None) is not None and any(
+                        isinstance(p_, (ast.ListComp, ast.GeneratorExp, ast.For, ast.While)) for p_ in parents(node_)
+                        if p_ is not mf_ and mf_ in list(parents(p_))):
+                    continue        # one call per element of a loop / comprehension
+                k_ = unparse(sub_ if sub_ is not None else node_)
+                cnt[k_] = cnt.get(k_, 0) + 1
+            for k_, v_ in cnt.items():
+                if v_ > 1 and (worst is None or v_ > worst[1]):
+                    worst = (k_, v_, cs)
+        ctx.decide('R07k', worst is None, m, worst[2].node if worst and worst[2].node is not None else mf_,
+                   '%s: every recursive rendering call is made at most once per path' % mn_,
+                   '%s evaluates %s %d times on the path [%s]: each level of nesting multiplies the work, so a group '
+                   'nested 30 deep (80 characters of input) does not finish'
+                   % (mn_, short(ast.parse(worst[0], mode='eval').body, 60) if worst else '', worst[1] if worst else 0,
+                      ' & '.join(worst[2].cond_src())[-100:] if worst else ''), construct=mn_ + ': renders once')
 
     return 'other', (
         'Exception-escape analysis of latex_to_text (tolerant configuration), crash-construct rules '
